@@ -21,11 +21,16 @@ The full statement one would like —
     ∀ ps, wf ps → containsNamedArgs (render ps) = ps.any isNamed
                 ∧ process (render ps) = (render (ps.map erase), keysOf ps)
 
-— is **false** of the code (finding F11): `process` mis-parses a placeholder directly followed by an escaped `}}`,
-and `containsNamedArgs` never examines the character that follows a placeholder. The two general theorems are
-therefore `…_partial`: they carry the decidable hypotheses `procOK` / `detectOK` (the excluded template classes),
-and the negations are proved on concrete witnesses. Everything else (split∘join, the pairs, the JSON line, the
-cache) holds as stated.
+— is **false** of the code (finding F11): `process` mis-parses a placeholder directly followed by an escaped `}}`
+(F11a), and `containsNamedArgs` never examines the character that follows a placeholder (F11b). The two general
+theorems are therefore `…_partial`: they carry the decidable hypotheses `procOK` / `detectOK` (the excluded template
+classes), and the negations are proved on concrete witnesses. `procOK` is exact (`C19_positional_iff`: the scanner is
+right **iff** `procOK`); `detectOK` excludes three adjacencies (positional placeholder directly followed by a named
+one, by `{{`, by `}}`), each with a proved counter-witness, and is not needed at all on the property's own grammar
+(`C19_detect_named_only`). What is missing for the full statement is a repair of the two loops, not a proof.
+Everything else (split∘join, the pairs, the statement as a sink sees it, the JSON line and its parse, the cache, the
+LOGJ_ templates with identifier arguments, fuel adequacy of the loop transcriptions) holds as stated; LOGJ_ with an
+argument spelled with a `:` is a further counter-witness (`C19_logj_colon_counter`, finding candidate F11c).
 -/
 namespace Named
 
